@@ -945,7 +945,8 @@ theorem baseArr_spec {v : Var} (h : v.WF) : (baseArr v).WF ∧ (baseArr v).abs =
   | str => exact ⟨Arr.WF.dense _, rfl⟩
   | indexed => exact ⟨h.arr, rfl⟩
 
-theorem wf_indexed {a : Arr} (w : a.WF) (set : Bool) (str : Str) : (Var.mk .indexed set str a).WF :=
+theorem wf_indexed {a : Arr} (w : a.WF) (set : Bool) (str : Str) (nl : Bool) :
+    (Var.mk .indexed set str a nl).WF :=
   ⟨w, (fun c => by cases c)⟩
 
 theorem setWithIndex_spec (v : Var) {base : Arr} (hb : base.WF) (i : Int) (s : Str) :
@@ -959,7 +960,7 @@ theorem setWithIndex_spec (v : Var) {base : Arr} (hb : base.WF) (i : Int) (s : S
   · rw [if_neg hj]
     obtain ⟨a1, e1, w1, ab1⟩ := setElem_spec hb (resolve base.abs i) s (by omega)
     rw [e1]
-    exact ⟨_, rfl, fun c => absurd c hj, fun _ => ⟨wf_indexed w1 _ _, rfl, ab1⟩⟩
+    exact ⟨_, rfl, fun c => absurd c hj, fun _ => ⟨wf_indexed w1 _ _ _, rfl, ab1⟩⟩
 
 theorem abs_nil_of_list_nil {a : Arr} (e : a.list = []) : a.abs = [] := by
   unfold Arr.abs
@@ -1275,7 +1276,7 @@ theorem appendWithIndex_spec (v : Var) {base : Arr} (hb : base.WF) (i : Int) (s 
     obtain ⟨a1, e1, w1, ab1⟩ := setElem_spec hb (resolve base.abs i)
       (optStr (base.abs.lookup (resolve base.abs i)) ++ s) (by omega)
     rw [e1]
-    exact ⟨_, rfl, fun c => absurd c hj, fun _ => ⟨wf_indexed w1 _ _, rfl, ab1⟩⟩
+    exact ⟨_, rfl, fun c => absurd c hj, fun _ => ⟨wf_indexed w1 _ _ _, rfl, ab1⟩⟩
 
 theorem abs_of_indexed {v : Var} (hk : v.kind = .indexed) : v.abs = ⟨.indexed, v.arr.abs⟩ := by
   simp [Var.abs, Var.absMap, hk]
@@ -1289,14 +1290,14 @@ theorem applyOp_spec (v : Var) (op : Op) (h : v.WF) :
   cases op with
   | assign es =>
     obtain ⟨a', e, w, ab⟩ := litLoop_spec es ⟨[], none⟩ 0 (Arr.WF.dense _) (Int.le_refl _)
-    refine ⟨⟨.indexed, true, v.str, a'⟩, by simp only [applyOp, e, liftArr], wf_indexed w _ _, fun _ => ?_⟩
+    refine ⟨⟨.indexed, true, v.str, a', false⟩, by simp only [applyOp, e, liftArr], wf_indexed w _ _ _, fun _ => ?_⟩
     rw [abs_of_indexed rfl]
     simp only [specOp, ab]
     rfl
   | append es =>
     obtain ⟨a', e, w, ab⟩ := litLoop_spec es (baseArr v) (indexedMax (baseArr v) + 1) bw
       (by have := indexedMax_ge bw; omega)
-    refine ⟨⟨.indexed, true, v.str, a'⟩, by simp only [applyOp, e, liftArr], wf_indexed w _ _, fun _ => ?_⟩
+    refine ⟨⟨.indexed, true, v.str, a', false⟩, by simp only [applyOp, e, liftArr], wf_indexed w _ _ _, fun _ => ?_⟩
     rw [indexedMax_spec bw, bab] at ab
     rw [abs_of_indexed rfl]
     simp only [specOp, ab]
@@ -1348,7 +1349,7 @@ theorem applyOp_spec (v : Var) (op : Op) (h : v.WF) :
     cases hk : v.kind with
     | indexed =>
       obtain ⟨a', e, w, ab⟩ := appendZero_spec h.arr s
-      refine ⟨⟨.indexed, true, v.str, a'⟩, by simp only [e, liftArr], wf_indexed w _ _, fun _ => ?_⟩
+      refine ⟨⟨.indexed, true, v.str, a', false⟩, by simp only [e, liftArr], wf_indexed w _ _ _, fun _ => ?_⟩
       rw [abs_of_indexed rfl, abs_of_indexed hk]
       simp only [specOp, ab]
     | unknown =>
@@ -1370,7 +1371,7 @@ theorem applyOp_spec (v : Var) (op : Op) (h : v.WF) :
       · rw [if_neg hj]
         obtain ⟨a', e, w, ab⟩ := deleteElem_spec h.arr (resolve v.arr.abs i)
         rw [e]
-        refine ⟨_, rfl, wf_indexed w _ _, fun _ => ?_⟩
+        refine ⟨_, rfl, wf_indexed w _ _ _, fun _ => ?_⟩
         rw [abs_of_indexed rfl, abs_of_indexed hk]
         simp [specOp, hj, ab]
     | unknown =>
@@ -1397,11 +1398,11 @@ theorem applyOp_spec (v : Var) (op : Op) (h : v.WF) :
       · exact absurd ok hs
       · simp [specOp, Var.abs, Var.absMap, hk, SVar.unset]
   | readArr vs =>
-    refine ⟨_, rfl, wf_indexed (Arr.WF.dense _) _ _, fun _ => ?_⟩
+    refine ⟨_, rfl, wf_indexed (Arr.WF.dense _) _ _ _, fun _ => ?_⟩
     rw [abs_of_indexed rfl]
     rfl
   | mapfile vs =>
-    refine ⟨_, rfl, wf_indexed (Arr.WF.dense _) _ _, fun _ => ?_⟩
+    refine ⟨_, rfl, wf_indexed (Arr.WF.dense _) _ _ _, fun _ => ?_⟩
     rw [abs_of_indexed rfl]
     rfl
 
